@@ -6,6 +6,7 @@ package c14
 import (
 	"fmt"
 	"reflect"
+	"strings"
 	"testing"
 	"unicode"
 
@@ -65,6 +66,35 @@ func hasWriterUnicodeEscape(c profile.HavocConfig) bool {
 	return found
 }
 
+func hasMapKey(c profile.HavocConfig, f func(string) bool) bool {
+	found := false
+	var walkv func(v reflect.Value)
+	walkv = func(v reflect.Value) {
+		switch v.Kind() {
+		case reflect.Ptr:
+			if !v.IsNil() {
+				walkv(v.Elem())
+			}
+		case reflect.Struct:
+			for i := 0; i < v.NumField(); i++ {
+				walkv(v.Field(i))
+			}
+		case reflect.Slice:
+			for i := 0; i < v.Len(); i++ {
+				walkv(v.Index(i))
+			}
+		case reflect.Map:
+			for _, k := range v.MapKeys() {
+				if f(k.String()) {
+					found = true
+				}
+			}
+		}
+	}
+	walkv(reflect.ValueOf(c))
+	return found
+}
+
 func encode(c profile.HavocConfig) []byte {
 	f := hclwrite.NewEmptyFile()
 	gohcl.EncodeIntoBody(&c, f.Body())
@@ -80,7 +110,18 @@ func checkB(c CaseB) *core.Violation {
 	}
 	if err != nil {
 		sum, line, all := diagText(err)
-		return core.V("writer|rejected|"+sigSlug(sum)+"|"+cls, "the profile written by gohcl.EncodeIntoBody/hclwrite is rejected by the loader (line %d): %s\n--- profile ---\n%s", line, all, src)
+		// name the input class that goes with the diagnostic, so that each writer defect has its own signature
+		slug := sigSlug(sum)
+		cause := "other"
+		switch {
+		case slug == "invalid-escape-sequence" && hasWriterUnicodeEscape(c.Cfg):
+			cause = "nonprintable-rune"
+		case slug == "invalid-for-expression" && hasMapKey(c.Cfg, func(k string) bool { return k == "for" }):
+			cause = "map-key-for"
+		case slug == "invalid-character" && hasMapKey(c.Cfg, func(k string) bool { return strings.HasPrefix(k, "\ufeff") }):
+			cause = "map-key-starts-with-bom"
+		}
+		return core.V("writer|rejected|"+slug+"|"+cause, "the profile written by gohcl.EncodeIntoBody/hclwrite is rejected by the loader (line %d): %s\n--- profile ---\n%s", line, all, src)
 	}
 	diffs := diffConfig(c.Cfg, got)
 	if len(diffs) == 0 {
